@@ -137,6 +137,13 @@ func cancelChild(args []string) {
 		fmt.Println("OBS " + string(b))
 	}
 	bound := 6 * time.Second
+	// contexts known to the runner: "latectx" (hooks that leave a mark) is used by a task submitted after the
+	// cancellation, "broken" by the up-fails pre-history
+	r.SetContexts(map[string]*runner.ExecutionContext{
+		"latectx": runner.NewExecutionContext(nil, "", variables.NewVariables(),
+			[]string{fmt.Sprintf("echo late-hook-up >> %s", sc.Log)}, nil, []string{fmt.Sprintf("echo late-hook-before >> %s", sc.Log)}, nil),
+		"broken": runner.NewExecutionContext(nil, "", variables.NewVariables(), []string{"false"}, nil, nil, nil),
+	})
 	switch sc.Pre {
 	case "bad-context":
 		bad := task.FromCommands("true")
@@ -145,7 +152,6 @@ func cancelChild(args []string) {
 			obs.Note += " pre-run with unknown context reported no error"
 		}
 	case "up-fails":
-		r.SetContexts(map[string]*runner.ExecutionContext{"broken": runner.NewExecutionContext(nil, "", variables.NewVariables(), []string{"false"}, nil, nil, nil)})
 		bad := task.FromCommands("true")
 		bad.Name, bad.Context = "pre", "broken"
 		if r.Run(bad) == nil {
@@ -214,6 +220,17 @@ func cancelChild(args []string) {
 			obs.LateRunErr = e != nil
 		case <-time.After(bound):
 			obs.Note += " late Run did not return"
+		}
+		// the same with a task whose context has up / before commands: none of them may start either
+		late2 := task.FromCommands(fmt.Sprintf("echo late-ran >> %s", sc.Log))
+		late2.Name, late2.Context = "late2", "latectx"
+		late2Done := make(chan error, 1)
+		go func() { late2Done <- r.Run(late2) }()
+		select {
+		case e := <-late2Done:
+			obs.LateRunErr = obs.LateRunErr && e != nil
+		case <-time.After(bound):
+			obs.Note += " late Run (with a context) did not return"
 		}
 		if sc.Point == "twice" {
 			obs.SecondCancelMs = timedCancel(r.Cancel)
@@ -344,7 +361,7 @@ func cancelChild(args []string) {
 			seenReturn = true
 			continue
 		}
-		if seenReturn && (strings.HasPrefix(l, "start-") || strings.HasPrefix(l, "next-") || strings.HasPrefix(l, "third-") || strings.HasPrefix(l, "cmd-") || strings.HasPrefix(l, "end-") || l == "late-ran") {
+		if seenReturn && (strings.HasPrefix(l, "start-") || strings.HasPrefix(l, "next-") || strings.HasPrefix(l, "third-") || strings.HasPrefix(l, "cmd-") || strings.HasPrefix(l, "end-") || l == "late-ran" || strings.HasPrefix(l, "late-hook-")) {
 			obs.StartedAfter = append(obs.StartedAfter, l)
 		}
 		if strings.HasPrefix(l, "start-w") || l == "start-c" {
